@@ -38,6 +38,7 @@ func main() {
 		"non-interference jobs: N states in N goroutines run one shared compiled FunctionProto while other goroutines create/compile/close states (race detector on when available). " +
 		"stress jobs: 2-3 producers and 8-12 consumers (most with a context) compete on one small buffered channel for 15000+ values; counters for duplicates, early closure reports, per-sender disorder. " +
 		"lib jobs: a state changes every table reachable from its globals (library tables, metatables, function environments); states created before/after/concurrently must keep the pristine fingerprint. " +
+		"limit jobs: a retrying consumer receives (receive / select / select handler) with its registry or call stack at the limit; every value must still arrive once. " +
 		"make jobs: pcall(channel.make, n) for sizes from 0 to 2^62 and negative ones next to a computing state. " +
 		"non-trivial = a history with >= 2 threads, >= 1 delivered value and >= 1 pair of operations of different threads overlapping in time, or a single-state script with >= 1 refused payload or closure report; " +
 		"an isolation job with >= 2 concurrent states; distinct by Gallina term"
